@@ -52,3 +52,32 @@ pub fn op_rprove(a: &[&str]) -> String {
         Some(Err(e)) => format!("err #{}", e),
     }
 }
+
+/// `rseq <w1,w2,…> <seed>`: one process, one thread: construct and verify proofs of the given widths in this
+/// order, then verify all of them again in reverse order (anything cached between calls — generators, tables —
+/// is exercised growing and shrinking); the proofs are emitted for both verifiers
+pub fn op_rseq(a: &[&str]) -> String {
+    use crate::sigma::{hp, hs, op_verify, rand_scalar};
+    let [ws, seed] = a else { return "bad-op".into() };
+    let Some(sd) = unhex(seed) else { return "bad-op".into() };
+    let mut r = Rng::new(u64::from_le_bytes(arr::<8>(&sd[..8.min(sd.len())]).unwrap_or([0; 8])), "rseq");
+    let mut built: Vec<(String, String)> = vec![];
+    for (i, w) in csv(ws).iter().enumerate() {
+        let bls: Vec<usize> = match *w { "64" => vec![32, 32], "128" => vec![64, 64], "256" => vec![64, 64, 64, 64], _ => return "bad-op".into() };
+        let amounts: Vec<u64> = bls.iter().map(|n| if *n == 64 { r.u64() } else { r.u64() & ((1u64 << n) - 1) }).collect();
+        let opens: Vec<curve25519_dalek::scalar::Scalar> = bls.iter().map(|_| rand_scalar(&mut r)).collect();
+        let comms: Vec<String> = amounts.iter().zip(opens.iter()).map(|(x, o)| hp(&crate::gen_sigma::commit(&curve25519_dalek::scalar::Scalar::from(*x), o))).collect();
+        let args = [w.to_string(), comms.join(","), amounts.iter().map(|x| x.to_string()).collect::<Vec<_>>().join(","),
+            bls.iter().map(|x| x.to_string()).collect::<Vec<_>>().join(","), opens.iter().map(hs).collect::<Vec<_>>().join(",")];
+        let av: Vec<&str> = args.iter().map(|x| x.as_str()).collect();
+        let Some(Ok(b)) = construct(&av) else { return format!("variant-mismatch:seq-construct:{}:{}", i, w) };
+        let name = format!("range{}", w);
+        let h = hex(&b);
+        if !op_verify(&[&name, &h]).starts_with('A') { return format!("variant-mismatch:seq-verify:{}:{}", i, w) }
+        built.push((name, h));
+    }
+    for (i, (name, h)) in built.iter().enumerate().rev() {
+        if !op_verify(&[name, h]).starts_with('A') { return format!("variant-mismatch:seq-reverify:{}:{}", i, name) }
+    }
+    format!("emit:{}", built.iter().map(|(n, h)| format!("!A verify {} {}", n, h)).collect::<Vec<_>>().join("|"))
+}
